@@ -55,8 +55,11 @@ type Block struct {
 	File     string
 	Line     int
 	Parent   *Block
+	ImplementedBy []string
 	RetClosure string            // `returns closure NAME [v: expr, ...]`: the result is that function literal ...
 	RetBinds   map[string]string // ... with these captured variables
+	Implements []string  // `implements T`: this function / closure is used as a value of the named function type T and takes over T's contract (functype block, parameters arg0, arg1, ...)
+	Records   []string   // `records f (*T).m ...`: direct static calls of these functions are logged in the activation-local trace (scalls/scall/sret)
 	AtClosure []AtClause // `at closure [x, y]: assert E`: holds where a closure capturing x, y is created
 	Writers  []string // `global` block: functions allowed to write the variable
 	Notes    []string // stated assumption behind a declaration
@@ -77,7 +80,7 @@ type SpecFun struct {
 var clauseKw = map[string]bool{"props": true, "requires": true, "ensures": true, "fails_iff": true, "nopanic": true,
 	"pure": true, "trusted": true, "inline": true, "modifies": true, "uses": true, "loop": true, "opcase": true,
 	"assume": true, "unfold": true, "fresh": true, "let": true, "preserves": true, "abstract": true,
-	"writers": true, "note": true, "effects": true, "at": true, "returns": true}
+	"writers": true, "records": true, "implements": true, "note": true, "effects": true, "at": true, "returns": true}
 var blockKw = map[string]bool{"iface": true, "functype": true, "func": true, "closure": true, "global": true, "entry": true, "spec": true, "define": true, "rec": true, "axioms": true, "lemma": true}
 
 var labelRe = regexp.MustCompile(`^#([A-Za-z0-9_.\-]+)\s+`)
@@ -284,6 +287,10 @@ func (P *Program) ParseContracts(mirrorDir, specDir string) error {
 					tgt.Uses = append(tgt.Uses, strings.Fields(rest)...)
 				case "writers":
 					tgt.Writers = append(tgt.Writers, strings.Fields(rest)...)
+				case "implements":
+					tgt.Implements = append(tgt.Implements, strings.Fields(rest)...)
+				case "records":
+					tgt.Records = append(tgt.Records, strings.Fields(rest)...)
 				case "note":
 					tgt.Notes = append(tgt.Notes, rest)
 				case "effects":
@@ -410,6 +417,44 @@ func (P *Program) ParseContracts(mirrorDir, specDir string) error {
 		}
 	}
 	P.synthHandlers()
+	return P.linkImplements()
+}
+
+// linkImplements: a block that `implements T` carries T's contract: T's
+// preconditions are assumed, its postconditions and its frame are proved.
+func (P *Program) linkImplements() error {
+	for _, b := range P.BlockL {
+		for _, tn := range b.Implements {
+			key := tn
+			if _, ok := P.Blocks[key]; !ok {
+				key = shortPkg(b.PkgPath) + "." + tn
+			}
+			t, ok := P.Blocks[key]
+			if !ok || t.Kind != "functype" {
+				return fmt.Errorf("%s:%d: implements %s: no functype block of that name", b.File, b.Line, tn)
+			}
+			b.Requires = append(append([]Clause{}, t.Requires...), b.Requires...)
+			b.Ensures = append(b.Ensures, t.Ensures...)
+			if t.HasMod {
+				if b.HasMod {
+					return fmt.Errorf("%s:%d: implements %s: the frame is the function type's; remove the modifies clause", b.File, b.Line, tn)
+				}
+				b.HasMod = true
+				b.Modifies = append([]string{}, t.Modifies...)
+			}
+			for _, p := range t.Props {
+				dup := false
+				for _, q := range b.Props {
+					dup = dup || p == q
+				}
+				if !dup {
+					b.Props = append(b.Props, p)
+				}
+			}
+			b.Uses = append(b.Uses, t.Uses...)
+			t.ImplementedBy = append(t.ImplementedBy, b.Name)
+		}
+	}
 	return nil
 }
 
